@@ -6,6 +6,7 @@ From Coq Require Import ZArith List Bool.
 From Alliance Require Import Num KMap Types Monad Model Step Spec Hoare WitnessLib.
 From Alliance.Witness Require Import F_C17_interval_zero F_C17_decay_overflow F_C17_div_zero.
 From Alliance.Proofs Require Import Totality ParamsInv.
+From Alliance.Proofs Require Import FailureModes.
 Import ListNotations.
 Open Scope Z_scope.
 
@@ -66,3 +67,10 @@ Theorem C17_decay_without_schedule_partial : forall als s,
   Forall (fun a => a_interval a = 0 \/ a_rate a = ONE) als -> exists r s', reward_weight_change_hook als s = Ok r s'.
 Proof. exact weight_hook_total_without_schedule. Qed.
 Print Assumptions C17_decay_without_schedule_partial.
+
+(* every way end-of-block can fail (exhaustive list of codes, any state).  P_DIV_ZERO_INTERVAL is
+   excluded for reachable states by C17_take_rate_leg_never_divides_by_zero; P_OVERFLOW and P_DIV_ZERO
+   are the findings F-C17-2/3; the others need a staking / bank environment that refuses *)
+Theorem C17_failure_modes : raises (fun e => In e end_block_codes) end_blocker.
+Proof. exact end_block_failure_modes. Qed.
+Print Assumptions C17_failure_modes.
